@@ -83,9 +83,16 @@ def gen_rule(rng, block, opcode, subblocks):
         name = pnames[k]
         wrap = None
         if c < 0.18:
-            # literal register
+            # literal register, sometimes in brackets (`jp (hl)`), the bracket sometimes glued to the mnemonic
             r = rng.choice(REGS)
+            br = rng.choice(["()", "[]"]) if rng.random() < 0.25 else None
+            if br:
+                if k == 0 and pat[-1]["p"] == "ws" and rng.random() < 0.4:
+                    pat.pop()
+                pat.append({"p": "lit", "lc": br[0], "c0": br[0], "nch": 1})
             pat.append({"p": "lit", "lc": r, "c0": r[0], "nch": len(r)})
+            if br:
+                pat.append({"p": "lit", "lc": br[1], "c0": br[1], "nch": 1})
             operands.append(("reg", r))
             continue
         if rng.random() < 0.25:
@@ -99,7 +106,12 @@ def gen_rule(rng, block, opcode, subblocks):
         if c < 0.55:
             ty, n = rng.choice(TYPES)
             pat.append({"p": "par", "name": name, "ty": ty, "n": n, "sub": ""})
-            prod.append(var(name))
+            if n % 8 == 0 and rng.random() < 0.2:
+                # the byte-swapped value used as a NUMBER (a negative signed argument is its bit pattern there)
+                prod.append({"k": "sshort", "e": {"k": "bin", "op": "add", "l": {"k": "call", "f": "le", "args": [var(name)]},
+                                                  "r": numlit("1")}, "n": numlit(str(n))})
+            else:
+                prod.append(var(name))
             total += n
             operands.append(("typed", ty, n))
         elif c < 0.8:
